@@ -443,6 +443,10 @@ class CircuitCompositeOperation(ICircuitCompositeOperation):
         WARNING: Applies modifier inplace.
         :return: Simple repeat.
         """
+        # Guard clause, zero repetitions leave nothing to be executed (as in the exported programs)
+        if times <= 0:
+            self._circuit_graph = CircuitGraphBranch()
+            return self
         original_self = self.copy()
         for i in range(times - 1):
             self.extend(other=original_self.copy())
